@@ -23,6 +23,9 @@ pub struct Case {
     pub w: usize,
     pub d: usize,
     pub stream: Stream,
+    /// 0: one `add` per element; n > 0: elements arrive through `Extend::extend` in chunks of n (checked at chunk ends)
+    #[serde(default)]
+    pub extend_chunk: u16,
 }
 
 fn materialise(s: &Stream) -> Vec<u64> {
@@ -83,15 +86,22 @@ impl Check for C10 {
         let mut prev: BTreeSet<u64> = BTreeSet::new();
         let mut displacement = false;
         let mut checked = 0u64;
-        for (pos, &x) in items.iter().enumerate() {
-            if let Err(p) = catch(|| heap.add(x)) {
+        let chunk = c.extend_chunk as usize;
+        let mut pos = 0usize;
+        while pos < items.len() {
+            let end = if chunk == 0 { pos + 1 } else { (pos + chunk).min(items.len()) };
+            let r = if chunk == 0 { catch(|| heap.add(items[pos])) } else { catch(|| heap.extend(items[pos..end].iter().copied())) };
+            if let Err(p) = r {
                 return fail(
                     panic_sig(&p),
-                    format!("add #{} (element {}) panicked: {} [k={}, sketch {}x{}]", pos + 1, x, p, c.k, c.w, c.d),
+                    format!("{} #{} (element {}) panicked: {} [k={}, sketch {}x{}]", if chunk == 0 { "add" } else { "extend ending at add" }, end, items[end - 1], p, c.k, c.w, c.d),
                 );
             }
-            *truth.entry(x).or_insert(0) += 1;
-            let n = pos + 1;
+            for &x in &items[pos..end] {
+                *truth.entry(x).or_insert(0) += 1;
+            }
+            pos = end;
+            let n = end;
             if n > 400 && n % 7 != 0 && n != items.len() {
                 continue;
             }
@@ -142,11 +152,12 @@ impl Check for C10 {
             prev = set;
         }
         let nontrivial = truth.len() > c.k && displacement;
-        let mut info = Info::new(nontrivial, hash64(&(c.k, c.w, c.d, &items)))
+        let mut info = Info::new(nontrivial, hash64(&(c.k, c.w, c.d, &items, c.extend_chunk)))
             .class_if(displacement, "displacement")
             .class_if(e_max == 0 && truth.len() > 1, "exact_sketch")
             .class_if(e_max > 0, "sketch_collisions")
-            .class_if(c.w * c.d == 1, "1x1_sketch");
+            .class_if(c.w * c.d == 1, "1x1_sketch")
+            .class_if(chunk > 0, "via_extend");
         info.inner_evals = checked;
         Verdict::Pass(info)
     }
@@ -171,8 +182,9 @@ fn strategy(tier: Tier) -> BoxedStrategy<Case> {
             2 => Just((4096usize, 4usize)),
         ],
         stream,
+        prop_oneof![5 => Just(0u16), 1 => 1u16..40],
     )
-        .prop_map(|(k, (w, d), stream)| Case { k, w, d, stream })
+        .prop_map(|(k, (w, d), stream, extend_chunk)| Case { k, w, d, stream, extend_chunk })
         .boxed()
 }
 
@@ -198,7 +210,7 @@ fn exhaustive(ctx: &Ctx, alphabet: u16, max_len: usize) {
             items.push((code % a) as u16);
             code /= a;
         }
-        let case = Case { k, w, d, stream: Stream::Explicit(items) };
+        let case = Case { k, w, d, stream: Stream::Explicit(items), extend_chunk: 0 };
         match guarded_eval(&C10, &case) {
             Verdict::Fail { sig, msg } => Some((serde_json::to_value(&case).unwrap(), sig, msg)),
             Verdict::Pass(info) => {
@@ -218,7 +230,7 @@ pub fn checks() -> Vec<Box<dyn DynCheck>> {
 }
 
 pub fn run(ctx: &Ctx) {
-    ctx.set_rule("exhaustive: every stream over a 4-element alphabet up to length 8 (thorough: 10, and 5 elements up to length 8) for k in 1..=3 and sketches 1x1, 2x1, 3x2, 4096x4, every prefix. generated: k in 1..=8 (32 thorough), sketch (w, d) from 1x1 (everything collides) to collision-free 4096x4, alphabets 1..200 with ties, streams (explicit shrinkable lists, uniform, zipf, rotating, newcomers after the heap is full, sorted blocks), checked at every prefix up to 400 and every 7th beyond. Oracle: exact counts + a shadow CountMinSketch with identical parameters fed the same stream (E = its largest overestimate): iter() yields exactly min(k, distinct) distinct seen elements; a missing x has >= k other elements with true count >= true(x) - E; is_empty; add never panics (harness built with debug assertions on). Non-trivial: distinct seen > k and a displacement observed (an element left the result). Distinct = (k, w, d, stream).");
+    ctx.set_rule("exhaustive: every stream over a 4-element alphabet up to length 8 (thorough: 10, and 5 elements up to length 8) for k in 1..=3 and sketches 1x1, 2x1, 3x2, 4096x4, every prefix. generated: k in 1..=8 (32 thorough), sketch (w, d) from 1x1 (everything collides) to collision-free 4096x4, alphabets 1..200 with ties, streams (explicit shrinkable lists, uniform, zipf, rotating, newcomers after the heap is full, sorted blocks), checked at every prefix up to 400 and every 7th beyond; a sixth of the cases feed the stream through Extend::extend in chunks (checked at chunk ends). Oracle: exact counts + a shadow CountMinSketch with identical parameters fed the same stream (E = its largest overestimate): iter() yields exactly min(k, distinct) distinct seen elements; a missing x has >= k other elements with true count >= true(x) - E; is_empty; add never panics (harness built with debug assertions on). Non-trivial: distinct seen > k and a displacement observed (an element left the result). Distinct = (k, w, d, stream).");
     ctx.assume("CMSHeap::new takes a CountMinSketch with the default hasher, so the shadow sketch with equal (w, d) is identical to the internal one");
     ctx.run_regressions(&[&C10]);
     let t = ctx.tier;
